@@ -30,6 +30,8 @@ Inductive case : Type :=
 | CAuxHash (blob : list Z) (r : verd)
 | CLcp1 (version hashalg ptype sinitmin polctrl maxsinit : Z) (hashzero : bool) (r : verd)
 | CLcp2 (preset version hashalg ptype hmask smask : Z) (r : verd)
+(* SINITACMcomplyTPMSpec: capabilities of the SINIT ACM, of the module parsed behind it *)
+| CSinitTPM (caps1 : Z) (caps2 : option Z) (tpm : Z) (present : bool) (r : verd)
 (* Boot Guard / ME *)
 | CSaneME (strict : bool) (v hfsts6 msr : Z) (r : verd)
 | CSaneMEAll (strict : bool) (v msr base : Z) (rs : list bool)
@@ -84,6 +86,7 @@ Definition check (c : case) : bool :=
   | CAuxHash b r => verd_eqb r (aux_index_hash b)
   | CLcp1 ve h t s pc ms hz r => verd_eqb r (lcp_valid1 ve h t s pc ms hz)
   | CLcp2 pr ve h t hm sm r => verd_eqb r (lcp_valid2 pr ve h t hm sm)
+  | CSinitTPM c1 c2 t pr r => verd_eqb r (sinit_tpm_spec c1 c2 t pr)
   | CSaneME st v h m r => verd_eqb r (sane_me_raw st v h m)
   | CSaneMEAll st v m base rs => list_eqb Bool.eqb rs (sane_me_all st v m base)
   | CValidateME v h b k i r => verd_eqb r (validate_me v (decode_hfsts6 h) b k i)
